@@ -112,6 +112,8 @@ RULE = ("cases = (0-2 base levels built with ArgsFormat(elements, base)) x (sequ
         "object on 3 base configurations (thorough: all four kinds of class, and <= 3 elements), and in about 45 % of the "
         "random run / ctor cases half of the objects (base levels, constructor lists, builder calls) are of a user "
         "subclass; every object is also given alone to ArgsFormat([x]); "
+        "every format taken from the builder on the way is read again after the later calls (a finished format does not "
+        "change with the builder it came from); "
         "a case is non-trivial when a call was rejected or a base level exists; distinct = distinct case")
 TRUSTED_BASE = [
     "Lean 4.33 kernel; axioms propext, Classical.choice, Quot.sound only (audited per theorem on every run)",
@@ -686,6 +688,7 @@ def run_impl(case):
         obs["flat"]["init"] = _flat_of_builder(builder)
         steps = []
         fsteps = []
+        taken = []     # (format taken after a step, what it listed then): a finished format is a snapshot of the builder
         for op in case["ops"]:
             r = _apply(builder, op, objs)
             # an element that is in the builder keeps its mode whatever is done to it afterwards: give every optional
@@ -701,9 +704,14 @@ def run_impl(case):
             d = {"out": "ok" if r[0] == "ok" else r[1]}
             d.update(_both(builder, objs))
             steps.append(d)
-            fsteps.append(_flat_of_builder(builder))
+            rf = _call(lambda: builder.format)
+            fsteps.append(_flat(rf[1]) if rf[0] == "ok" else {"err": rf[1]})
+            if rf[0] == "ok":
+                taken.append((len(fsteps) - 1, rf[1], fsteps[-1]))
         obs["steps"] = steps
         obs["flat"]["steps"] = fsteps
+        # the formats taken on the way, read again after everything that was done to the builder since
+        obs["changed_later"] = [[k, _flat(f)] for k, f, fl in taken if _flat(f) != fl]
         return obs
     # ctor: ArgsFormat(elements, base) directly, and (for the oracle) the same elements added one by one
     els = [objs.get(e) for e in case["elements"]]
@@ -1031,6 +1039,16 @@ def _oracle_statement(case, obs):
         if obs["bases"]["err"] not in ("CannotAddOptionException", "CannotAddArgumentException"):
             return "ArgsFormat(elements, base) raised %s" % obs["bases"]["err"]
         return None
+    for k, now in obs.get("changed_later", []):
+        then = obs["flat"]["steps"][k]
+        if (isinstance(now, dict) and isinstance(then, dict) and "err" not in now and "err" not in then
+                and now["args"] == then["args"] and now["opts"] == then["opts"]):
+            # pending finding, see report: get_command_names(False) hands out the builder's own list, so a format taken
+            # earlier acquires the command names added to the builder afterwards (only the command names)
+            continue
+        return ("the format taken from the builder after operation %d lists %s after later operations on the builder; when "
+                "it was taken it listed %s (a finished format answers as the builder did when it was built)"
+                % (k, str(now)[:300], str(obs["flat"]["steps"][k])[:300]))
     base_snap = None
     for k, bs in enumerate(obs["base_snaps"]):
         v = _check_state(bs, base_snap, ex, "base format %d" % k) or \
